@@ -28,6 +28,7 @@ import Driver.BddSimChk
 import Driver.OrdVecChk
 import Driver.AchainChk
 import Vata.Proofs.LtsSim
+import Vata.Properties.C01
 /-!
 # vdriver – the model side of the correspondence check
 
@@ -92,7 +93,8 @@ def checkIncl (args res : List String) : Except String (Findings × String) := d
       f := f ++ [s!"violation incl[{n}]={c} reference={bchar exp}"]
   -- the L2 model of the upward antichain algorithm (certifying; `inclUp_iff`, `checkInclUp_total`): must return, agree
   -- with the implementation's upward verdict and with the reference
-  match checkInclUp A B 200000 with
+  -- fuel above the proved bound (`checkInclUp_complete`): `none` is then impossible for the model as proved
+  match checkInclUp A B (InclUp.fuelBound (removeUseless A) (removeUseless B) + 1) with
   | some (b, _) =>
     if bchar b != chars[0]! then f := f ++ [s!"mismatch upward-model verdict {bchar b} implementation {chars[0]!}"]
     if b != exp then throw "internal: certifying upward model contradicts the reference"
@@ -108,11 +110,14 @@ def checkIncl (args res : List String) : Except String (Findings × String) := d
   -- operands, and where the implementation answered within its budget, they must return and agree with it
   -- (the downward algorithms are exponential by design – the models too: only small operands)
   if A.states.length + B.states.length ≤ 6 && (dedupRules A.rules).length + (dedupRules B.rules).length ≤ 12 then
-    for (name, ix, mo) in [("down-rec", 4, checkInclDownRec A B 100000), ("down-rec-opt", 6, checkInclDownRec A B 100000),
-        ("down-nonrec", 2, checkInclDownNonrec A B 100000)] do
+    -- all six downward selections, through the very function `C01Sel.model` that `C01_every_selection_exact_total` is about
+    -- (the `+sim` ones with the relation the model computes itself on the prepared union, as `cli/operations.hh` does)
+    for (name, ix, sel) in [("down-nonrec", 2, Vata.Props.C01Sel.downNonrecNoSim), ("down-nonrec+sim", 3, .downNonrecSim),
+        ("down-rec", 4, .downRecNoSim), ("down-rec+sim", 5, .downRecSim), ("down-rec-opt", 6, .downRecOptNoSim),
+        ("down-rec-opt+sim", 7, .downRecOptSim)] do
       let c := chars[ix]!
       if c == 'T' then continue
-      match mo with
+      match sel.model A B 100000 with
       | some (b, _) =>
         if bchar b != c then f := f ++ [s!"mismatch {name}-model verdict {bchar b} implementation {c}"]
         if b != exp then throw s!"internal: certifying {name} model contradicts the reference"
